@@ -97,6 +97,35 @@ def run_m1(rep, gs):
                                   "include/smooth/lie_group_base.hpp", None))
 
 
+
+def run_m8(rep, gs):
+    """M8: operations documented to return a new element return an owning value (never a second view of the operand's storage),
+    whatever the storage of the operand: cast<S>() (same and different scalar), inverse(), operator*, exp / log results, operator=."""
+    rep.rule("M8", "cast / inverse / product of a Map or value return an owning PlainObject, not a view of the operand", minimum=20)
+    pos = []
+    for g in gs:
+        if g.scalar != "double":
+            continue
+        other = "float"
+        ct = g.ctype
+        cast_same = ct
+        cast_other = ct.replace("double", "float")
+        for src, tag in (("smooth::Map<%s>" % ct, "map"), ("smooth::Map<const %s>" % ct, "cmap"), (ct, "val")):
+            d = ("using Src_%s_%s = %s;\n" % (g.key, tag, src)
+                 + "static_assert(std::is_same_v<decltype(std::declval<const Src_%s_%s &>().template cast<double>()), %s>, \"cast<double>() of %s is not an owning value\");\n" % (g.key, tag, cast_same, tag)
+                 + "static_assert(std::is_same_v<decltype(std::declval<const Src_%s_%s &>().template cast<float>()), %s>, \"cast<float>() of %s is not an owning value\");\n" % (g.key, tag, cast_other, tag)
+                 + "static_assert(std::is_same_v<decltype(std::declval<const Src_%s_%s &>().inverse()), %s>, \"inverse() of %s is not an owning value\");\n" % (g.key, tag, ct, tag)
+                 + "static_assert(std::is_same_v<decltype(std::declval<const Src_%s_%s &>() * std::declval<const Src_%s_%s &>()), %s>, \"product of %s is not an owning value\");\n" % (g.key, tag, g.key, tag, ct, tag))
+            pos.append(wit.Wit("own_%s_%s" % (g.key, tag), "", d, what="cast<double|float>(), inverse(), operator* of %s return %s by value" % (src, ct), group=g.key))
+    failed, unattr, raw = wit.compile_batch(groups.PRELUDE, pos, name="c16m8")
+    if unattr:
+        rep.broke("M8 batch has unattributable errors: %s" % unattr[:2])
+    for w in pos:
+        bad = w.id in failed
+        rep.instance("M8", w.group, w.id, ok=not bad, sample={"obligation": w.what})
+        if bad:
+            rep.violation(Finding("M8", w.group, w.id, "%s -- %s" % (failed[w.id][0][-170:], w.what), "include/smooth/lie_group_base.hpp", None))
+
 # ----------------------------------------------------------------------------------------------
 
 def part_src_type(g, pt):
@@ -465,5 +494,6 @@ def check(rep, tier, replay=None):
     rep.assumptions.append("documented memory layouts (detail/*.hpp 'Memory layout' comments, direct-product order for Bundle) are the oracle for sub-part ranges")
     rep.assumptions.append("the 4-ulp 'same results' clause is structural here: value and Map run the same Impl code on the same words (M3 + M5); no numeric claim")
     run_m1(rep, gs)
+    run_m8(rep, gs)
     check_ir(rep, gs, tier)
     check_ast(rep)
